@@ -8,7 +8,7 @@ from typing import Any
 DEFAULT_W = {
     "yield": 10, "sleep": 7, "await": 3, "set": 4, "chkif": 3, "shchk": 2, "raise": 4, "effdl": 2,
     "scope": 10, "cancel": 9, "cbcancel": 2, "shield": 2, "deadline": 3,
-    "group": 7, "spawn": 9, "start": 4, "catch": 3, "finally": 4,
+    "group": 7, "spawn": 9, "start": 4, "catch": 3, "catchall": 1, "finally": 4,
     "ncancel": 2, "uncancel": 1, "hcancel": 3, "hwait": 3, "started": 4,
 }
 
@@ -46,7 +46,7 @@ class Gen:
         r = self.rng
         for _ in range(20):
             k = self.pick()
-            if k in ("scope", "group", "catch", "finally") and depth >= self.max_depth:
+            if k in ("scope", "group", "catch", "catchall", "finally") and depth >= self.max_depth:
                 continue
             if k == "yield":
                 return ["yield"]
@@ -104,8 +104,8 @@ class Gen:
                 if not names or not gks:
                     continue
                 return [k, r.choice(gks), r.choice(names)]
-            if k == "catch":
-                return ["catch", self.body(depth + 1, level, in_group)]
+            if k in ("catch", "catchall"):
+                return [k, self.body(depth + 1, level, in_group)]
             if k == "finally":
                 if r.random() < 0.6:
                     cleanup = [["scope", {"k": self.key("s"), "shield": True},
